@@ -882,6 +882,9 @@ pub struct ManifestCfg {
     pub aliases: bool,
     /// args may exceed what a transaction can hold (deep chains) - caller filters
     pub deep_chain_pct: u64,
+    /// percent of argument lists that get a value the manifest SBOR encoder must reject
+    /// (element kind mismatch, nesting beyond the SBOR depth limit) - C36 only
+    pub ill_formed_pct: u64,
 }
 
 pub struct Generated {
@@ -912,6 +915,23 @@ fn gen_args(rng: &mut Rng, life: &mut Life, cfg: &ManifestCfg, allow_proofs: boo
         if let Some(v) = value_of_kind(rng, k, vcfg.max_depth, life, &vcfg) {
             fields.push(v);
         }
+    }
+    if cfg.ill_formed_pct > 0 && rng.below(100) < cfg.ill_formed_pct {
+        fields.push(match rng.below(4) {
+            0 => MV::Array { element_value_kind: VK::U8, elements: vec![MV::Bool { value: true }] },
+            1 => MV::Map { key_value_kind: VK::String, value_value_kind: VK::U8, entries: vec![(MV::U8 { value: 1 }, MV::U8 { value: 2 })] },
+            2 => {
+                let mut v = MV::U8 { value: 0 };
+                for _ in 0..26 {
+                    v = MV::Tuple { fields: vec![v] };
+                }
+                v
+            }
+            _ => MV::Array {
+                element_value_kind: VK::Custom(ManifestCustomValueKind::Bucket),
+                elements: vec![custom(ManifestCustomValue::Proof(ManifestProof(0)))],
+            },
+        });
     }
     MV::Tuple { fields }
 }
